@@ -17,7 +17,7 @@ ASSUMPTIONS = ["Bezier reversed/split: rounding bound; interior Bezier crops (t1
                "path crop length compared to length(T0,T1) to 1e-6 relative (C06 owns length)"]
 CONFIGS = ['scipy']
 BUDGET = {'quick': 20000, 'thorough': 300000}
-REQUIRED = ['seg:L', 'seg:Q', 'seg:C', 'seg:A', 'path', 'path:wraparound', 'path:repeated_segment', 'path:joint_T', 'interior_crop']
+REQUIRED = ['segment_obtained_from_reversed', 'seg:L', 'seg:Q', 'seg:C', 'seg:A', 'path', 'path:wraparound', 'path:repeated_segment', 'path:joint_T', 'interior_crop']
 TIME_LIMIT = {'quick': 250, 'thorough': 3300}
 
 EPS = 2.0 ** -52
@@ -43,7 +43,8 @@ def strategy(tier, config):
             t0, t1 = min(a_, b_), max(a_, b_)
             ts = draw(gen.floats_in(0.01, 0.99))
             us = draw(st.lists(gen.floats_in(0.0, 1.0), min_size=1, max_size=2))
-            return {'what': 'seg', 'spec': spec, 'tag': tag, 't0': t0, 't1': t1, 'ts': ts, 'us': us}
+            return {'what': 'seg', 'spec': spec, 'tag': tag, 't0': t0, 't1': t1, 'ts': ts, 'us': us,
+                    'via': draw(st.sampled_from(['direct', 'direct', 'from_reversed', 'from_crop']))}
         closed = draw(st.booleans())
         specs = draw(gen.chain_specs(min_size=2, max_size=5, closed=closed, unequal=draw(st.booleans()),
                                      scale=draw(st.sampled_from([1e-2, 1.0, 1.0, 1e2, 1e4]))))
@@ -103,7 +104,19 @@ def check_seg(case, ctx):
     ctx.count('class:' + case['tag'])
     rt, ct, size = seg_tols(spec, seg)
     us = UGRID + case['us']
-    pt = lambda u: complex(seg.point(u))
+    ref = seg
+    pt = lambda u: complex(ref.point(u))
+    via = case.get('via', 'direct')
+    if via == 'from_reversed':
+        # the segment under test is itself the product of reversed() (of the mirror-image segment): it is the same curve,
+        # and everything below must hold for it as for a freshly constructed one
+        seg = ctx.lib('reversed/' + kind, ctx.lib('build', gen.build_seg, _rev_spec(spec)).reversed)
+        ctx.count('segment_obtained_from_reversed')
+        rt, ct = 2 * rt, 2 * ct
+    elif via == 'from_crop' and kind != 'A':
+        # ... or the product of an end crop of a longer curve (exact for Beziers: de Casteljau)
+        seg = ctx.lib('cropped/' + kind, seg.cropped, 0.0, 1.0)
+        ctx.count('segment_obtained_from_crop')
     # reversed ------------------------------------------------------------------------
     r = ctx.lib('reversed/' + kind, seg.reversed)
     ctx.check(type(r) is type(seg), 'reversed/type', 'reversed() returned %s' % type(r).__name__)
